@@ -1,15 +1,17 @@
 """C01: ordinary cell hash/depth = TON representation hash/depth, through every construction route."""
 from ..gen import cells as G
-from ..translate import arith
+from ..translate import arith, cellctor
 
 SPEC = dict(
     manifest=dict(
         category='proof',
-        text='Lean proves for EVERY tree of ordinary cells (all bit lengths, ref counts, shapes; SHA-256 abstract) that the model of Cell.__init__ is constructible iff depth<=1023 and reports the textbook representation hash/depth at every level, that get_representation hashes to the cached hash, that ==/__hash__ coincide with hash equality, and that the standard representation is injective (c01_repr_injective: d1 d2 ++ padded data ++ child depths ++ child hashes determines the BIT STRING -- the completion-tag padding is invertible given d2, Proofs/Pad.lean -- the reference count and every child depth field and hash; c01_hash_binding: equal hashes without a collision on the two representations mean equal bits and child hashes). The model is tied to the code by differential correspondence through 12 construction routes. The integer arithmetic the model rests on (descriptors, level-mask functions, depth limit, pruned offsets) is additionally REGENERATED from the Python source on every run and proved equal to the model/spec for all inputs (c0x_src_* theorems).',
-        level_note='Trusted: Lean kernel (propext, Classical.choice, Quot.sound), Model/Cell.lean as a faithful hand transcription of cell.py/exotic.py (checked only by sampled correspondence: ~29k node observations per quick run incl. every bit-length class and depth 1022-1025 chains), bitarray/hashlib semantics, the Python harness.',
-        technique='Lean 4 refinement proof (hand model) + differential correspondence with the library + source-regenerated arithmetic lemmas',
+        text='Lean proves for EVERY tree of ordinary cells (all bit lengths, ref counts, shapes; SHA-256 abstract) that the model of Cell.__init__ is constructible iff depth<=1023 and reports the textbook representation hash/depth at every level, that get_representation hashes to the cached hash, that ==/__hash__ coincide with hash equality, and that the standard representation is injective (c01_repr_injective: d1 d2 ++ padded data ++ child depths ++ child hashes determines the BIT STRING -- the completion-tag padding is invertible given d2, Proofs/Pad.lean -- the reference count and every child depth field and hash; c01_hash_binding: equal hashes without a collision on the two representations mean equal bits and child hashes). The model is tied to the code by differential correspondence through 12 construction routes. The integer arithmetic the model rests on (descriptors, level-mask functions, depth limit, pruned offsets) is additionally REGENERATED from the Python source on every run and proved equal to the model/spec for all inputs (c0x_src_* theorems). The WHOLE constructor is regenerated as well: Cell.__init__ with resolve_mask, the calculate_hashes loop (hash-index bookkeeping, the three raise points, child depths and hashes fed to the hash object), get_descriptors, the completion-tag padding of get_data_bytes, get_hash/get_depth of the children and NullCell.__init__ are re-translated into Generated/CellCtor.lean on every run (harness/translate/pyobj.py + cellctor.py, validated against the running library on about 480 cells each time the source or translator changes), and Lean proves for ALL cell types, bit strings and child infos that the regenerated constructor equals the hand model Model.construct including Cell.hash, the descriptor bytes and the padded data (c01_src_constructor; Proofs/SrcCellCtor.lean), so c01_hash_depth / c01_constructible_iff hold for what the source computes (c01_src_hash_depth). A source change inside the translatable subset breaks this proof and the check then evaluates regenerated constructor vs model on boundary DAGs to hand the differing cells to the oracle; outside the subset the tie is reported lost and the sampled correspondence decides.',
+        level_note='Trusted: Lean kernel (propext, Classical.choice, Quot.sound), the source translators pyarith.py / pyobj.py with their declared interface (attribute types, a child cell = its CellInfo, sha256 streaming = hash of the concatenation, bitarray/int built-ins of PyObj.lean; differentially validated against CPython), Model/Cell.lean as a hand transcription of cell.py/exotic.py (for the constructor now proved equal to the regenerated source, c01_src_constructor; elsewhere checked by sampled correspondence: ~29k node observations per quick run incl. every bit-length class and depth 1022-1025 chains), bitarray/hashlib semantics, the Python harness.',
+        technique='Lean 4 refinement proof (hand model) + constructor regenerated from the source and proved equal to the model for all inputs + differential correspondence with the library',
     ),
-    translators=[('cell.py d1/d2/depth-limit->Generated/CellArith.lean', arith.regenerator('CellArith'))],
+    translators=[('cell.py d1/d2/depth-limit->Generated/CellArith.lean', arith.regenerator('CellArith')),
+                 ('exotic.py LevelMask->Generated/LevelMask.lean', arith.regenerator('LevelMask')),
+                 ('cell.py Cell.__init__/resolve_mask/calculate_hashes/get_data_bytes->Generated/CellCtor.lean', cellctor.regenerate)],
     design_ref='DESIGN.md §6 C01',
     rule='ordinary-cell DAGs: every bit length class (all 1024 lengths in thorough), 0-4 refs, sharing, chains to depth 1022/1023/1024; '
          'each node observed through routes ctor/plain-bitarray/builder/boc/copy/slice/to_builder; distinct = distinct (dag, node, route); '
@@ -17,7 +19,8 @@ SPEC = dict(
     trusted_base=['Model/Cell.lean mirrors Cell.__init__/calculate_hashes/get_hash/get_depth/get_representation by hand',
                   'Spec/Cell.lean transcribes tvm.pdf 3.1.4-3.1.5', 'SHA-256 is an abstract parameter H in all theorems',
                   'lean/TonVerif/Sha256.lean (driver only) validated against hashlib on each run',
-                  'harness/translate/pyarith.py + arith.py (Python int arithmetic -> Lean) and lean/TonVerif/PyInt.lean (meaning of bit_length / bin().count / math.ceil) for the c01_src_* theorems'],
+                  'harness/translate/pyarith.py + arith.py (Python int arithmetic -> Lean) and lean/TonVerif/PyInt.lean (meaning of bit_length / bin().count / math.ceil) for the c01_src_* theorems',
+                  'harness/translate/pyobj.py + cellctor.py (object programs -> Lean: loops, early return, method calls, list/bitarray/hash-object mutation) with the declared interface in cellctor.py and lean/TonVerif/PyObj.lean, PyBytes.lean for c01_src_constructor (design/translators-cell.md)'],
     assumptions=['bitarray slicing/tobytes/fill behave as modelled', 'hashlib.sha256 is SHA-256',
                  'correspondence is sampled differential testing of model vs library'],
 )
@@ -175,6 +178,21 @@ def src_search(ctx):
     for pt in found.get('depthTooLarge') or []:
         if 1 <= pt['depth'] <= 1100:
             check_dag(ctx, G.chain(pt['depth'], '', 1), f'src-chain{pt["depth"]}', derive=False, routes=['ctor'])
+    if len(ctx.failures) > n0:
+        return True
+    # the cells on which the REGENERATED constructor (Generated/CellCtor.lean) and the hand model differ
+    rng = ctx.rng
+    leaf = (G.ORD, '101', ())
+    dags = [(f'len{n}refs{n % 5}', [leaf, (G.ORD, G.rand_bits(rng, n), tuple([0] * (n % 5)))]) for n in sorted(set(G.BOUNDARY_LENS) | set(range(0, 26)))]
+    dags += [(f'dag{t}', G.gen_ordinary_dag(rng, rng.randrange(2, 10), deep=t % 2 == 0)) for t in range(12)]
+    dags += [(f'chain{d}x{w}', G.chain(d, '', w)) for d in (1, 2, 1022, 1023, 1024) for w in (1, 2)]
+    dags += [(t, n) for t, n in cellctor.validation_dags() if all(k == G.ORD for k, _, _ in n)]
+    found = cellctor.diff_dags(ctx, dags)
+    found.sort(key=lambda f: sum(len(n[1]) for n in f[1]))
+    for tag, nodes, idx in found[:40]:
+        check_dag(ctx, nodes[:max(idx) + 1], f'src-ctor-{tag}', derive=False, routes=['ctor'])
+        if len(ctx.failures) > n0 + 3:
+            break
     return len(ctx.failures) > n0
 
 
